@@ -166,13 +166,6 @@ Proof. vm_compute. split; [reflexivity|]. eexists _, _. reflexivity. Qed.
 (* ---- refutations: the full statement "the rows are exactly the solutions, for every conjunctive pattern" is false of the
    faithful model; each witness is replayed on the real planner by checks/c03.py (corpus/C03/witnesses.jsonl). *)
 
-(* a fully specified clause after clauses that bound something: AppendTable refuses (error), although the pattern has a
-   solution *)
-Theorem C03_spec3_refuted :
-  exists q, q_cfg q = current true false /\ run_model q = Err EAppend /\ run_spec q <> [].
-Proof. exists (w_spec3_after_bound (current true false)). vm_compute. repeat split; discriminate. Qed.
-Print Assumptions C03_spec3_refuted.
-
 (* an interval clause `"t"@[lb,ub]` without anchor binding: two rows for ONE assignment of the bindings *)
 Theorem C03_bound_dup_refuted :
   exists q outs x, q_cfg q = current true false /\ length (q_graphs q) = 1%nat /\ run_model q = Ok (outs, [x; x]).
@@ -234,8 +227,8 @@ Print Assumptions C03_spec3_global_bounds_original_refuted.
 (* repaired (87509de, F25): one value per binding inside a clause was tested with reflect.DeepEqual, so the same instant written in two
    zones did not count as one value although joins and the store identify them *)
 Theorem C03_zone_binding_original_refuted :
-  exists q, (exists outs, run_model (q (mkCfg true false true true true true true false)) = Ok (outs, []) /\
-                          run_spec (q (mkCfg true false true true true true true false)) <> []) /\
+  exists q, (exists outs, run_model (q (mkCfg true false true true true true true false false false)) = Ok (outs, []) /\
+                          run_spec (q (mkCfg true false true true true true true false false false)) <> []) /\
             (exists outs row, run_model (q (current true false)) = Ok (outs, [row]) /\ length (run_spec (q (current true false))) = 1%nat).
 Proof.
   exists w_zone_repeated_binding. vm_compute. split.
@@ -243,3 +236,13 @@ Proof.
   - eexists _, _. split; reflexivity.
 Qed.
 Print Assumptions C03_zone_binding_original_refuted.
+
+(* repaired (F26): a fully specified clause after clauses that bound something made AppendTable refuse (error), although the
+   pattern has a solution; now it is a condition on the rows found so far *)
+Theorem C03_spec3_original_refuted :
+  exists q, (run_model (q (mkCfg true false true true true true true true false false)) = Err EAppend /\ run_spec (q (mkCfg true false true true true true true true false false)) <> []) /\
+            (exists outs row, run_model (q (current true false)) = Ok (outs, [row]) /\ run_spec (q (current true false)) = [row]).
+Proof.
+  exists w_spec3_after_bound. vm_compute. split; [split; [reflexivity|discriminate]|]. eexists _, _. split; reflexivity.
+Qed.
+Print Assumptions C03_spec3_original_refuted.
